@@ -14,7 +14,9 @@ EXPLANATION = (
     'pairs and the four dense/sparse pairings: the triangle written into the local matrix equals the one handed to the '
     'factorization, A is read only through UploA and B only through UploB, and the other matrix\'s contribution is transposed '
     'exactly when the two options differ (the compile-time branch is resolved from its constant value); (D3) the element '
-    'accessor of the product wrappers is called by the library only on the diagonal (i == j), where it is triangle-independent. '
+    'accessor of the product wrappers is called by the library only on the diagonal (i == j), where it is triangle-independent; '
+    '(D4) the stored input matrix of a wrapper is consumed only by triangle views, triangle-aware factorizations, size queries or '
+    'element access -- never by a plain product or copy. '
     'Does NOT decide backward-stable accuracy of any wrapper; Eigen\'s kernels and its documentation of which template '
     'argument selects which triangle are trusted.')
 ASSUMPTIONS = ["Eigen's UpLo template arguments select the triangle that is read (Eigen documentation)"]
@@ -214,6 +216,61 @@ PRODUCT = ('Spectra::DenseSymMatProd', 'Spectra::SparseSymMatProd', 'Spectra::De
            'Spectra::DenseHermMatProd', 'Spectra::SparseHermMatProd')
 
 
+
+def stored_matrix_consumers(ctx, rule='stored-matrix-read-only-through-triangle'):
+    """In a wrapper with a triangle option the stored input matrix may be consumed only by triangle-aware entities (a
+    selfadjoint / triangular view, the Bunch-Kaufman factorization with its uplo argument, a decomposition whose type carries
+    the option), by size queries, or element-wise (separate rule).  Anything else -- a plain product, an assignment, a
+    full-matrix decomposition -- reads the triangle the user was told is not referenced."""
+    SIZE = ('rows', 'cols', 'size', 'nonZeros', 'outerSize', 'innerSize')
+    ELEM = ('coeff', 'coeffRef')
+    n = 0
+    for w in TRI_WRAPPERS:
+        for rec in ctx.F.records_of('Spectra::' + w, dep=False):
+            mats = [f['name'] for f in rec['fields'] if re.search(r'Eigen::(Ref|Map)<const Eigen::(Matrix|SparseMatrix)<', f['type'])]
+            if not mats:
+                continue
+            problems = []
+            nuse = 0
+            for fn in ctx.F.methods(rec['qname']):
+                for x in fn.walk():
+                    if not (x['k'] == 'MemberExpr' and x.get('mk') == 'field' and x.get('member') in mats):
+                        continue
+                    cur = x
+                    par = fn.node(fn.parent.get(cur['id'], -1))
+                    while par is not None and par['k'] in ('ImplicitCastExpr', 'ParenExpr', 'MaterializeTemporaryExpr', 'ExprWithCleanups', 'CXXBindTemporaryExpr'):
+                        cur = par
+                        par = fn.node(fn.parent.get(cur['id'], -1))
+                    nuse += 1
+                    ok = False
+                    how = par['k'] if par is not None else '?'
+                    if par is not None and par['k'] == 'MemberExpr' and par.get('mk') == 'method':
+                        how = par.get('member')
+                        ok = how in SIZE or how in TRI_METHODS or how in ELEM
+                    elif par is not None and par['k'] == 'CXXOperatorCallExpr' and par.get('op') == '()':
+                        ok = True           # element access (diagonal-only rule)
+                        how = 'operator()'
+                    elif par is not None and par['k'] in ('CXXMemberCallExpr', 'CXXConstructExpr', 'CXXTemporaryObjectExpr'):
+                        how = '%s(..)' % (par.get('callee') or par.get('ctor_of'))
+                        if (par.get('callee') == 'compute' and par.get('cls') == 'Spectra::BKLDLT') or par.get('ctor_of') == 'Spectra::BKLDLT':
+                            ok = True
+                        elif par.get('callee') in ('compute', 'analyzePattern', 'factorize'):
+                            nm, args = split_targs((par.get('cls_t') or par.get('cls') or '').replace('const ', '', 1))
+                            ob = fn.call_object(par)
+                            oty = (fn.strip(ob) or {}).get('t', '') if ob is not None else ''
+                            nm2, _ = split_targs(oty.replace('const ', '', 1))
+                            ok = TRI_TYPES.get(nm) is not None or TRI_TYPES.get(nm2) is not None
+                    if not ok:
+                        problems.append('%s: the stored matrix %s is consumed by %s (`%s`): both triangles are read' % (fn.name, x['member'], how, fn.s(par['id'])[:60] if par is not None else ''))
+            n += 1
+            u = record_param(rec, 'Uplo')
+            ctx.check(not problems, rule, '%s<%s>' % (w, NAMES.get(u, u)), rec['qname'],
+                      '%d uses of the stored matrix: size queries, triangle views, triangle-aware factorizations, element access only' % nuse
+                      if not problems else '; '.join(sorted(set(problems))[:3]))
+    if n < 10:
+        raise AnalysisBroken('only %d wrappers with a stored matrix analysed' % n)
+
+
 def element_accessor_diagonal_only(ctx, rule='element-accessor-used-on-diagonal-only'):
     n = 0
     for fn in ctx.F.concrete():
@@ -231,6 +288,7 @@ def element_accessor_diagonal_only(ctx, rule='element-accessor-used-on-diagonal-
 
 
 def run(ctx):
+    stored_matrix_consumers(ctx)
     triangle_threading(ctx)
     shift_invert_typestate(ctx)
     element_accessor_diagonal_only(ctx)
